@@ -231,19 +231,51 @@ def twoPart (L : Int) : Loc → Bool
 def partsOK (L : Int) (l : Loc) : Bool :=
   !l.parts.isEmpty && l.parts.all fun p => decide (0 ≤ p.lo) && decide (p.lo < p.hi) && decide (p.hi ≤ L)
 
-/-- the record is not empty; the region lies in it (`start < end`, or `end < start` when it runs over
-    the origin — a region covering a whole circular record, `start = end`, is left to the
-    correspondence); every feature has non-empty parts inside the record; exons of a feature that does
-    not run over the origin fit into its hull (they do not overlap); a feature running over the origin
-    has one part on each side -/
+/-- one part moved by `k` -/
+def shiftPart (k : Int) (p : Part) : Part := ⟨p.lo + k, p.hi + k, p.strand⟩
+
+/-- the loop body of `offset_location` that brings one shifted part back into the record: reduced modulo the
+    record length, split at the origin when it runs over it -/
+def wrapPart (L : Int) (p : Part) : List Part :=
+  let s := p.lo % L
+  let e := (p.hi - 1) % L + 1
+  if 0 ≤ s && s < e && e ≤ L then [(⟨s, e, p.strand⟩ : Part)]
+  else [⟨s, L, p.strand⟩, ⟨0, e, p.strand⟩]
+
+/-- the pieces `offset_location` makes of a location before it merges abutting ones -/
+def rotPieces (L k : Int) (l : Loc) : List Part := l.parts.flatMap fun p => wrapPart L (shiftPart k p)
+
+/-- no piece abuts both its neighbours (three exons in a row each ending where the next starts: there the
+    merge step of `offset_location` itself drops bases — it keeps `previous.start`, not the start of what was
+    merged so far) -/
+def chainFree : List Part → Bool
+  | a :: b :: c :: rest => !(decide (a.hi = b.lo) && decide (b.hi = c.lo)) && chainFree (b :: c :: rest)
+  | _ => true
+
+/-- the rotation of `l` by `k` that `offset_location` performs is sound: all parts on one strand (abutting
+    pieces of different strands raise) and no chain of abutting pieces -/
+def rotOK (L k : Int) (l : Loc) : Bool :=
+  (match l.parts with
+   | [] => false
+   | p :: ps => ps.all (·.strand == p.strand)) && chainFree (rotPieces L k l)
+
+/-- the record is not empty; the region lies in it (`start < end`, or `0 < end ≤ start < L` when it runs over
+    the origin — `start = end`: all the way round); every feature has non-empty parts inside the record.  For a
+    region over the origin, where `offset_location` is at work: a feature that runs over the origin has one
+    part on each side of it, or is shorter than the record and `rotOK` for both offsets used (`-start`,
+    `L - start`); any other feature has exons that fit into its hull (they do not overlap) and is `rotOK` for the
+    offset `L - start` -/
 def wfInput (rd : RegionData) (rec : BioRecord) : Bool :=
   let L := rec.length
   decide (0 < L) &&
-  (if rd.crossesOrigin then decide (0 < rd.end) && decide (rd.end < rd.start) && decide (rd.start < L)
+  (if rd.crossesOrigin then decide (0 < rd.end) && decide (rd.end ≤ rd.start) && decide (rd.start < L)
    else decide (0 ≤ rd.start) && decide (rd.end ≤ L)) &&
   rec.features.all fun f =>
     partsOK L f.loc &&
-    (if bridgesOrigin f.loc then twoPart L f.loc else decide (f.loc.len ≤ f.loc.end - f.loc.start))
+    (!rd.crossesOrigin ||
+      (if bridgesOrigin f.loc then
+         twoPart L f.loc || (decide (f.loc.len ≠ L) && rotOK L (-rd.start) f.loc && rotOK L (L - rd.start) f.loc)
+       else decide (f.loc.len ≤ f.loc.end - f.loc.start) && rotOK L (L - rd.start) f.loc))
 
 /-! ### references go through one renumbering per kind -/
 
@@ -276,12 +308,14 @@ def FollowsLoadOrder (type : String) (num : BioFeature → Option Int) (fs : Lis
   ∀ g1 ∈ fs, ∀ g2 ∈ fs, g1.type = type → g2.type = type → ∀ m1 m2, num g1 = some m1 → num g2 = some m2 →
     pairLt (loadKey g1.loc) (loadKey g2.loc) = true → m1 < m2
 
-/-- the shape of an area's location: one forward part, or a forward pair over the origin -/
-def areaShape (L : Int) : Loc → Bool
+/-- the shape of an area's location: one forward part, or a forward pair over the origin (one that goes all
+    the way round a region over the origin starts where the region starts) -/
+def areaShape (L : Int) (rd : RegionData) : Loc → Bool
   | .simple p => p.strand == .fwd
   | .compound [a, b] =>
     a.strand == .fwd && b.strand == .fwd && decide (a.hi = L) && decide (b.lo = 0) && decide (0 < b.hi) &&
-    decide (b.hi ≤ a.lo) && decide (a.lo < L)
+    decide (b.hi ≤ a.lo) && decide (a.lo < L) &&
+    (decide (b.hi < a.lo) || !rd.crossesOrigin || decide (a.lo = rd.start))
   | _ => false
 
 def protoAreas (rd : RegionData) : List (Int × Loc) := (protoDict rd).map fun kv => (kv.1, kv.2.loc)
@@ -300,6 +334,6 @@ def linked (rd : RegionData) (rec : BioRecord) : Bool :=
   linkedKind "protocluster" (·.q.protoNumber) (protoAreas rd) rec &&
   linkedKind "cand_cluster" (·.q.candNumber) (candDict rd) rec &&
   linkedKind "subregion" (·.q.subNumber) (subDict rd) rec &&
-  (protoAreas rd ++ candDict rd ++ subDict rd).all fun a => areaShape rec.length a.2
+  (protoAreas rd ++ candDict rd ++ subDict rd).all fun a => areaShape rec.length rd a.2
 
 end ASV.RegionExtract
